@@ -328,7 +328,23 @@ def run(prop, tier, seed):
         shutil.rmtree(scratch, ignore_errors=True)
 
     # ---------------- evidence
-    n_v_units = sum(r.get('verified', 0) for r in verus_results)
+    # verification units that count for THIS property: Verus' own total also contains the derive expansions (`X::clone`)
+    # of every extracted type and the functions of included overlays that serve other properties.  Counted here: units
+    # that verified AND are (a) an extracted function (not a stub) or (b) a lemma / spec fn written in an overlay,
+    # in both cases from an overlay whose `serves=` names this property.
+    n_v_raw = sum(r.get('verified', 0) for r in verus_results)
+    counted_units = []
+    for r in verus_results:
+        rel = set(f['name'] for f in r.get('functions', []) if prop in f.get('serves', []) and not f.get('stub'))
+        rel |= set(a['name'] for a in r.get('aux_fns', []) if prop in a.get('serves', []))
+        rel_last = set(n.split('::')[-1] for n in rel if '::' not in n) | rel
+        seen = set()
+        for f in r.get('per_function', []):
+            nm = f['function']
+            if f.get('ok') and nm != 'verif_canary_must_fail' and (nm in rel_last or nm.split('::')[-1] in set(x for x in rel if '::' not in x)) and nm not in seen:
+                seen.add(nm)
+                counted_units.append('%s:%s' % (r['kernel'], nm))
+    n_v_units = len(counted_units)
     # failed verification units that matter for THIS property: untagged failures, or clauses tagged with it
     stale_obs = set(x['obligation'] for x in stale)
     n_v_fail = len(set((r['kernel'], f['function']) for r in verus_results if r['status'] == 'failed' for f in r.get('failed', [])
@@ -348,6 +364,7 @@ def run(prop, tier, seed):
     samples = [dict(obligation=t['id'], backend='verus/z3') for t in tags[:6]]
     samples += [dict(obligation=r['meta']['name'], backend='kani/cbmc', cbmc_checks=r['checks'], seconds=r['seconds'], status=r['status']) for r in kani_results[:6]]
     cov = dict(
+        verus_units_counted=n_v_units, verus_units_raw_incl_derive_expansions_and_other_properties=n_v_raw, verus_units_counted_names=counted_units,
         obligations=obligations, discharged=discharged,
         checker_cmd='; '.join([r.get('cmd', '') for r in verus_results][:2] + [r['cmd'] for r in kani_results[:1]]) or 'none',
         trusted_base=cfg.get('trusted_base', []) + P.STANDING_TRUST,
